@@ -98,7 +98,7 @@ Section FExt.
   Proof. induction k as [a b|a b|k IH|]; intro c; cbn; rewrite ?fcmp_ext, ?IH; reflexivity. Qed.
   Lemma fsimple_ext c s : fsimple_exec cal c s = fsimple_exec cal' c s.
   Proof.
-    destruct s; cbn [fsimple_exec]; rewrite ?feval_ext, ?fcond_ext; try reflexivity.
+    destruct s; cbn [fsimple_exec]; rewrite ?feval_ext, ?fcond_ext, ?H; try reflexivity.
     destruct (feval cal' c a) as [[c1 [i|j]]|]; try reflexivity. rewrite feval_ext. reflexivity.
   Qed.
   Lemma fsimples_ext l : forall c, fsimples cal c l = fsimples cal' c l.
@@ -118,11 +118,19 @@ Section FExt.
   Qed.
 End FExt.
 
+Lemma fcal1_norm t m s k : fcal1 (norm_ftable t) m s k = fcal1 t m s k.
+Proof. unfold fcal1, norm_ftable, fbody. rewrite fstmts_norm. reflexivity. Qed.
+
+Lemma fcal2_norm t m s k : fcal2 (norm_ftable t) m s k = fcal2 t m s k.
+Proof.
+  unfold fcal2, fbody. unfold norm_ftable at 2. rewrite fstmts_norm.
+  rewrite (fstmts_ext (fcal1 (norm_ftable t)) (fcal1 t)); [reflexivity|]. apply fcal1_norm.
+Qed.
+
 Theorem fcall_norm t m s k : fcall (norm_ftable t) m s k = fcall t m s k.
 Proof.
-  unfold fcall, norm_ftable, fbody. rewrite fstmts_norm.
-  rewrite (fstmts_ext (fcal1 (fun m0 => map norm_fstmt (t m0))) (fcal1 t)); [reflexivity|].
-  intros m0 s0 k0. unfold fcal1, fbody. rewrite fstmts_norm. reflexivity.
+  unfold fcall, fbody. unfold norm_ftable at 2. rewrite fstmts_norm.
+  rewrite (fstmts_ext (fcal2 (norm_ftable t)) (fcal2 t)); [reflexivity|]. apply fcal2_norm.
 Qed.
 
 Theorem fexec_norm t m o : fexec (norm_ftable t) m o = fexec t m o.
@@ -134,8 +142,10 @@ Proof. unfold frange. rewrite !fcall_norm. reflexivity. Qed.
 Lemma fcall_tbl_ext t t' : (forall m, t m = t' m) -> forall m s k, fcall t m s k = fcall t' m s k.
 Proof.
   intros H m s k. unfold fcall, fbody. rewrite H.
+  rewrite (fstmts_ext (fcal2 t) (fcal2 t')); [reflexivity|].
+  intros m0 s0 k0. unfold fcal2, fbody. rewrite H.
   rewrite (fstmts_ext (fcal1 t) (fcal1 t')); [reflexivity|].
-  intros m0 s0 k0. unfold fcal1. rewrite H. reflexivity.
+  intros m1 s1 k1. unfold fcal1. rewrite H. reflexivity.
 Qed.
 
 (* a table that normalises to the expected one behaves, on every state and for every operation, as Model.fm_step *)
